@@ -675,6 +675,10 @@ class Fxp():
             if set_inaccuracy and val.status['inaccuracy']:
                 self.status['inaccuracy'] = True
 
+            # a fractional raw value (fewer fractional bits than the source) must not be cast to an integer vdtype before rounding
+            if self.n_frac < val.n_frac and vdtype is not None and vdtype != complex and np.issubdtype(vdtype, np.integer):
+                vdtype = float
+
             # force return raw value for better precision
             val = utils.scale_raw(val.val, self.n_frac - val.n_frac)
             raw = True
